@@ -21,7 +21,7 @@ def cases(pattern):
     for p in sorted(glob.glob(os.path.join(VERIF, "selftest/preserving/*.diff"))):
         name = os.path.basename(p)[:-5]
         allc = ["C%02d" % i for i in range(1, 21)]
-        if name.startswith(("ref_R", "ref_T")):
+        if name.startswith(("ref_R", "ref_T", "ref_U")):
             # refactorings written by independent sub-agents, one library area each: the checks whose rules read that area
             area = {"1": ["C01", "C03", "C05", "C16", "C17"], "2": ["C03", "C07", "C09", "C10"], "3": ["C02", "C04", "C06", "C07", "C08", "C20"], "4": ["C02", "C03", "C04", "C14", "C18"],
                     "5": ["C11", "C12", "C13", "C14", "C15", "C18"], "6": ["C04", "C11", "C12", "C13", "C18"], "7": ["C04", "C08", "C10", "C20"], "8": ["C01", "C05", "C14", "C16", "C19"]}[name[5]]
